@@ -209,6 +209,24 @@ mut("cli-truthiness", ["C16"], "code_data/_cli.py",
 mut("cli-eval-wins-over-file", ["C16"], "code_data/_cli.py",
     "        source = cmd.replace(\"\\\\n\", \"\\n\")", "        source = cmd.replace(\"\\\\n\", \"\\n\").rstrip()")
 
+# ---- C05
+mut("normalize-drops-line-number", ["C05"], "code_data/_normalize.py",
+    "                _n_args_override=None,\n", "                _n_args_override=None,\n                line_number=x.line_number if x.name != 'POP_TOP' else None,\n")
+mut("normalize-clears-docstring", ["C05"], "code_data/_normalize.py",
+    "                _nested=False,\n", "                _nested=False,\n                type=replace(x.type, docstring=None) if x.type is not None and x.name == 'f' else x.type,\n")
+mut("normalize-resets-jump-relative", ["C05"], "code_data/_normalize.py",
+    "    if isinstance(x, NoArg):", "    if type(x).__name__ == 'Jump' and x.relative and x.target == 3:\n        return cast(T, replace(x, relative=False))\n    if isinstance(x, NoArg):")
+mut("encoder-pins-docstring-none", ["C05", "C03"], "code_data/_blocks.py",
+    "        if docstring_is_none and first_const and arg_is_string and no_override:\n            constants[0] = None\n", "")
+mut("normalize-reverses-freevars", ["C05"], "code_data/_normalize.py",
+    "                _nested=False,\n", "                _nested=False,\n                freevars=tuple(reversed(x.freevars)),\n")
+mut("normalize-merges-true-and-1", ["C05"], "code_data/_normalize.py",
+    "            replace(x, _index_override=None, constant=normalize(x.constant)),",
+    "            replace(x, _index_override=None, constant=1 if x.constant is True else normalize(x.constant)),")
+mut("normalize-drops-last-block-line", ["C05"], "code_data/_normalize.py",
+    "    if isinstance(x, tuple):\n        return cast(T, tuple(map(normalize, x)))",
+    "    if isinstance(x, tuple):\n        if len(x) > 40 and isinstance(x[0], Instruction):\n            return cast(T, tuple(map(normalize, x[:-1])) + (replace(normalize(x[-1]), line_number=normalize(x[-2]).line_number),))\n        return cast(T, tuple(map(normalize, x)))")
+
 
 def run_one(m, props_filter):
     name, props, file, old, new = m
